@@ -18,14 +18,16 @@ package interp
 //     name and offset read back from the Location object the program built;
 //   - AddDate: computed by the host in that zone (its source needs the
 //     unmodelled table time.daysBefore); result in the same location;
-//   - UTC, Local, In, Add, Sub, Before/After/Equal, Unix, Nanosecond, Date,
-//     Clock, Year ... run from package time's own SSA: they only touch the
+//   - Date, Year, Month, Day, YearDay: computed by the host likewise;
+//   - UTC, Local, In(time.UTC | time.Local), Add, Sub, Before/After/Equal,
+//     Unix, Nanosecond, Clock, Hour/Minute/Second, Weekday, Truncate, Zone,
+//     Location, time.Since run from package time's own SSA: they only touch the
 //     Location's cacheZone, which FixedZone fills for all instants.
 // Only fixed zones (one zone, one transition - the shape FixedZone builds) are
 // accepted; anything else is INCONCLUSIVE. Without the marker nothing changes:
 // the reading stays in UTC and a non-UTC location is refused by Format/String.
 //
-// The AddDate intrinsic also serves harnesses without the marker (UTC times);
+// The AddDate and calendar intrinsics also serve harnesses without the marker (UTC times);
 // package initialisers keep running the library's own code so that what is
 // havoc'ed there (lib/timex.initTime) stays as it was.
 
@@ -136,6 +138,43 @@ func hostTimeZoned(in *Interp, v Value) time.Time {
 }
 
 func init() {
+	// time.UTC is &time.utcLoc (package time's init is not run), so that
+	// t.In(time.UTC) is recognised as UTC by the library's own code. Only with
+	// the marker; otherwise the global stays an unreadable foreign object.
+	foreignGlobals["time.UTC"] = func(in *Interp, elem types.Type) Value {
+		if zoneLocal(in) {
+			if tp := in.Prog.ImportedPackage("time"); tp != nil {
+				if g, ok := tp.Members["utcLoc"].(*ssa.Global); ok {
+					return Ptr{in.globalCell(g)}
+				}
+			}
+		}
+		return Ptr{&Cell{T: elem.Underlying().(*types.Pointer).Elem(), V: poison{"time.UTC"}, ID: in.newID()}}
+	}
+	// calendar getters: their source needs the table time.daysBefore
+	calendar := func(name string, get func(t time.Time) Value) {
+		reg("(time.Time)."+name, func(in *Interp, fn *ssa.Function, args []Value) Value {
+			nsec, unix, loc, ok := concreteTimeParts(args[0])
+			if p, isP := loc.(Ptr); ok && (!isP || (p.C != nil && !zoneLocal(in))) {
+				ok = false
+			}
+			if !ok || in.inInit > 0 {
+				if fn.Blocks == nil && fn.Pkg != nil {
+					fn.Pkg.Build()
+				}
+				return in.runFunction(fn, args, nil)
+			}
+			return get(time.Unix(unix, nsec).In(hostLocation(in, loc)))
+		})
+	}
+	calendar("Date", func(t time.Time) Value {
+		y, m, d := t.Date()
+		return Tuple{intC(y), intC(int(m)), intC(d)}
+	})
+	calendar("Year", func(t time.Time) Value { return intC(t.Year()) })
+	calendar("Month", func(t time.Time) Value { return intC(int(t.Month())) })
+	calendar("Day", func(t time.Time) Value { return intC(t.Day()) })
+	calendar("YearDay", func(t time.Time) Value { return intC(t.YearDay()) })
 	reg("(time.Time).AddDate", func(in *Interp, fn *ssa.Function, args []Value) Value {
 		fromSource := func() Value {
 			if fn.Blocks == nil && fn.Pkg != nil {
